@@ -60,6 +60,43 @@ pub enum Case {
     /// one `echo` line of `len` characters on standard input, through the real binary: it is one
     /// command however long it is (then `move r1 x17; print r1`)
     LongLine { len: u32 },
+    /// a two-word command whose second word is no sub-command (`step sudo`, `b exit`): rejected
+    /// like any other invalid line, through the real binary and every transport
+    BadSub { first: String, second: String },
+}
+
+fn judge_bad_sub(first: &str, second: &str) -> Obs {
+    let mut obs = Obs::default();
+    obs.key = hash_of(&("bad-sub", first, second));
+    obs.nontrivial = true;
+    obs.label("second-word-that-is-no-sub-command");
+    let script = |line: &str| format!("move r1 x5A5A\n{line}\nprint r1\nstep\nregisters\nexit");
+    obs.show = Some(format!("{:?} against the same script with `bogus` in its place", script(&format!("{first} {second}"))));
+    let dir = crate::cli::TempDir::new();
+    dir.write("p.asm", NAME_PROGRAM.as_bytes());
+    let bad = script(&format!("{first} {second}"));
+    let reference = crate::cli::lace(&["debug", "p.asm", "--minimal", "--command", script("bogus").as_str()], dir.path(), &[], false, 60);
+    for (how, run) in [
+        ("--command", crate::cli::lace(&["debug", "p.asm", "--minimal", "--command", bad.as_str()], dir.path(), &[], false, 60)),
+        ("standard input", crate::cli::lace(&["debug", "p.asm", "--minimal"], dir.path(), format!("{bad}\n").as_bytes(), false, 60)),
+    ] {
+        if reference.timed_out || run.timed_out {
+            obs.excluded = Some("watchdog");
+            return obs;
+        }
+        if run.panicked() {
+            obs.set_fail("C14:debugger-crashes", format!("`{first} {second}` through {how}: {}", run.brief()));
+            return obs;
+        }
+        if run.code != reference.code || run.stdout != reference.stdout || run.stderr != reference.stderr {
+            obs.set_fail(
+                "C14:invalid-sub-command-not-rejected-like-an-invalid-line",
+                format!("`{first} {second}` through {how}: {}\nthe same script with `bogus` in its place: {}", run.brief(), reference.brief()),
+            );
+            return obs;
+        }
+    }
+    obs
 }
 
 /// Units of a long run: rejected by the parser, rejected when executed, blank, or inspection only.
@@ -486,6 +523,9 @@ const TRANSPORT_POOL: &[&str] = &[
     // labels of equal length in the same position of consecutive commands
     "print datb", "move data x7", "move datb x9", "print suc", "move suc -1", "move sub x1021", "break add sub", "break add suc", "break remove sub", "goto suc", "assembly data", "assembly datb",
     "move data+1 x5", "move datb-1 x6", "print datb+1",
+    // a carriage return that is not part of a line ending, inside a command: whatever it means,
+    // it means the same in every transport
+    "echo a\rb", "move r1 x12\rx34", "print r1\r", "\rstep",
 ];
 
 fn judge_transport(commands: &[String], split: usize, sep_arg: bool, sep_stdin: bool, decorate: u8) -> Obs {
@@ -710,6 +750,11 @@ fn strip_prompt_drawing(err: &[u8]) -> Vec<u8> {
 fn judge_transport_tty(commands: &[String], split: usize, sep_arg: bool, mixed: bool) -> Obs {
     let mut obs = Obs::default();
     obs.key = hash_of(&("tty", commands, split, sep_arg, mixed));
+    if commands.iter().any(|c| c.contains('\r')) {
+        // (at a terminal a carriage return is the Enter key, not a character of the line)
+        obs.excluded = Some("a carriage return cannot be typed into a line");
+        return obs;
+    }
     let split = split.min(commands.len());
     obs.nontrivial = true;
     obs.label("transport-typed-at-a-terminal");
@@ -804,6 +849,7 @@ fn judge_long_line(len: u32) -> Obs {
 pub fn judge_case(c: &Case) -> Obs {
     match c {
         Case::LongLine { len } => judge_long_line(*len),
+        Case::BadSub { first, second } => judge_bad_sub(first, second),
         Case::Transport { commands, split, sep_arg, sep_stdin, decorate } if *decorate == 255 => judge_transport_cli(commands, *split, *sep_arg, *sep_stdin),
         Case::Transport { commands, split, sep_arg, sep_stdin, decorate } if *decorate == 254 => judge_transport_tty(commands, *split, *sep_arg, *sep_stdin),
         Case::Tokens { tokens, with_break } => {
@@ -848,7 +894,7 @@ impl Prop for C14 {
     fn rule(&self) -> &'static str {
         "(a) ALL argument strings of length <= 4 (quick) / <= 5 (thorough) over the alphabet {+ - # x o b 0 1 8 a g ^ r _}, each used as `move r1 <t>` (value) and `goto <t>` (location), and up to length 3 also as `break add <t>`, against a program at origin 0 that defines 46 labels colliding with tricky spellings (xg, b8, o, x, r8, R00, _, ... and b10, b1, o10, ... which the assembler accepts as labels while the command grammar reads them as binary / octal integers); plus generated longer tokens: numbers at the i16/u16/i32 edges (and beyond 2^32) in every radix and sign position with leading zeros, label+-offset, ^offset, multi-byte characters, control characters that are not separators (ESC, BEL, BS, DEL, CSI). \
          Oracle RefCmd (doc comment of the integer parser, NaiveType table, help.txt): value accepted <=> documented integer in [-32768, 65535], R1 = v mod 2^16; location => PC / breakpoint list equals the resolved address; everything else => an error is reported and nothing changes; never a panic; every batch is run a second time in the normal (non-minimal) output mode, where errors are rendered in full: no panic, same final machine state. Generated tokens include long ones with a multi-byte character around byte offsets 32 / 64 / 128 / 256. \
-         (b) every command name, alias and listed misspelling (one- and two-word forms) in 3 random letter cases: alias => transcript, output, exit and final state identical to the canonical name in a fixed scenario; misspelling => CommandError and no effect. `print` without argument = `print ^`. \
+         (b) every command name, alias and listed misspelling (one- and two-word forms) in 3 random letter cases: alias => transcript, output, exit and final state identical to the canonical name in a fixed scenario; misspelling => CommandError and no effect. `print` without argument = `print ^`. `step` / `s` / `break` / `b` followed by a word that is no sub-command (`sudo` - an easter egg as a command of its own -, other commands' names, junk) behave, through the real binary on both transports, exactly like any invalid line. \
          (c) generated scripts of 1-8 commands delivered through --command, through stdin, or split at every point, with `;` or newline as separator, empty commands and surrounding blanks: stdout, stderr, exit status and final state identical to the plain delivery (in-process through the real CommandReader, plus a sample through the real binary with a pipe as stdin, plus a sample typed key by key at a pseudo-terminal - one command per line, `;`-joined on a line, or with a `;` left at the end of a line - where the debugger's output with the prompt drawing removed must equal that of the plain delivery). \
          (d) scripts on standard input in which one line contains bytes that are not UTF-8 (lone / truncated / surrogate sequences at the start, in the middle or at the end of a command; a character of the command, or a `;` / newline joining two commands, spelled as an over-long 2-, 3- or 4-byte sequence): no panic, and the session equals the one with an invalid textual line in its place. \
          (e) through the real binary: runs of 1,000 / 30,000 / 70,000 (thorough: 300,000) repetitions of one command that is rejected, blank or inspection-only (14 units), one per line or `;`-joined, on standard input or in `--command`, followed by a short tail, and single `echo` lines of 2^16 .. 5 * 2^20 (thorough: 2^24) characters (one command however long): no crash, and exit status, program output and the tail's debugger output equal those of the tail alone (newline-separated: the whole debugger output is the unit's output repeated). Non-trivial: token with a sign/prefix and a digit; name variant; script split strictly inside. Distinct = token batch / name / (script, split)."
@@ -984,6 +1030,16 @@ impl Prop for C14 {
             }
         }
         rep.exhaustive.push(format!("one `echo` line of {lens:?} characters on standard input, through the real binary"));
+        // second words that are no sub-commands (other commands' names among them)
+        for first in ["step", "s", "break", "b"] {
+            for second in ["sudo", "SUDO", "Sudo", "sudoo", "exit", "quit", "reset", "help", "continue", "x", "0"] {
+                n += 1;
+                if ctx.mine(n) {
+                    judge_one(ctx, rep, &Case::BadSub { first: first.to_string(), second: second.to_string() }, &mut |c| judge_case(c));
+                }
+            }
+        }
+        rep.exhaustive.push("step / s / break / b followed by a word that is no sub-command (sudo in three cases, other commands' names, junk), through the real binary on both transports".into());
     }
     fn needs_cli(&self) -> bool {
         true
